@@ -6,6 +6,7 @@
 package tl
 
 import (
+	"crypto/rand"
 	"math/big"
 
 	"github.com/xelaj/go-dry"
@@ -25,8 +26,18 @@ func NewInt128() *Int128 {
 // NewInt128 creates int128 with random value
 func RandomInt128() *Int128 {
 	i := &Int128{Int: big.NewInt(0)}
-	i.SetBytes(dry.RandomBytes(Int128Len))
+	i.SetBytes(randomBytes(Int128Len))
 	return i
+}
+
+// randomBytes returns size bytes read from the operating system's cryptographic random source.
+// Nonces of the key exchange must be unpredictable, so math/rand (dry.RandomBytes) is not an option.
+func randomBytes(size int) []byte {
+	b := make([]byte, size)
+	if _, err := rand.Read(b); err != nil {
+		panic("reading crypto/rand: " + err.Error())
+	}
+	return b
 }
 
 // func reflectIsInt128(v reflect.Value) bool {
@@ -66,7 +77,7 @@ func NewInt256() *Int256 {
 // NewInt256 creates int256 with random value
 func RandomInt256() *Int256 {
 	i := &Int256{big.NewInt(0)}
-	i.SetBytes(dry.RandomBytes(Int256Len))
+	i.SetBytes(randomBytes(Int256Len))
 	return i
 }
 
